@@ -411,11 +411,12 @@ fn block() -> impl Strategy<Value = Vec<Op>> {
         }),
         // ... a basic-information write that meets a failing store, retried (or not), and another
         // write of the same blob
-        2 => (admin_who(), any::<u8>(), prop_oneof![Just(0u8), Just(32u8), 1u8..32], 0u8..3, prop::bool::weighted(0.6), any::<u8>(), any::<bool>()).prop_map(
+        2 => (admin_who(), any::<u8>(), prop_oneof![Just(0u8), Just(32u8), 1u8..32], 0u8..4, prop::bool::weighted(0.6), any::<u8>(), any::<bool>()).prop_map(
             |(who, salt, len, kind, again, salt2, other)| {
                 let op = match kind {
                     0 => Op::NodeLabel { who, salt, len },
                     1 => Op::Location { who, salt },
+                    2 => Op::SetReg { who, salt },
                     _ => Op::LocalCfg { who, value: salt & 1 == 0 },
                 };
                 let mut v = vec![Op::KvFailNext, op.clone()];
@@ -888,7 +889,7 @@ fn run_segment<CC: Crypto>(
         // ---- environment operations
         match &op {
             Op::KvFailNext => {
-                let next_is_basic = matches!(case.ops.get(p.pos), Some(Op::NodeLabel { .. } | Op::Location { .. } | Op::LocalCfg { .. }));
+                let next_is_basic = matches!(case.ops.get(p.pos), Some(Op::NodeLabel { .. } | Op::Location { .. } | Op::LocalCfg { .. } | Op::SetReg { .. }));
                 if m.armed.is_none() && next_is_basic && p.kv_fail_for.is_none() {
                     b.kv.fail_write_at(0);
                     p.kv_fail_for = Some(p.pos);
@@ -2584,7 +2585,7 @@ fn main() {
         "fault_enumeration",
         "histories of up to 40 administrative operations built from blocks (commissioning over PASE with 0-2 Wi-Fi networks, UpdateNOC, staged writes under a fail-safe ended by CommissioningComplete / ArmFailSafe(0) / expiry / restart, single ACL / ACL-at-capacity / key-set / key-map / group-table (AddGroup incl. re-adding a membership under another name, joining further endpoints, filling the table and a row beyond capacity, AddGroupIfIdentifying, RemoveGroup, RemoveAllGroups, ViewGroup on four application endpoints) / fabric-label / node-label / location / local-config / regulatory writes outside a fail-safe, RemoveFabric of the own or another fabric, real CASE handshakes + waits that let the resumption cache be flushed, subscriptions with 1-24 paths, restarts, factory reset) perturbed by insert/delete/swap edits, on a Wi-Fi or Ethernet device with 0-2 pre-existing fabrics; EVERY prefix of the resulting store-operation log is booted. Non-trivial: at least one examined prefix ends strictly inside an operation that issued two or more store/remove operations, or directly after the acknowledgement of an operation that changed the persisted state (i.e. between that acknowledgement and the next write); distinct = distinct serialized history",
     );
-    run.assume("a failing key-value store is injected only at basic-information writes (NodeLabel, Location, LocalConfigDisabled) outside a fail-safe, one write at a time; the write must then be answered with an error and must not become durable later through another write; store failures at other writes are not generated here (inside a fail-safe context: C08)");
+    run.assume("a failing key-value store is injected only at basic-information writes (NodeLabel, Location, LocalConfigDisabled, SetRegulatoryConfig) outside a fail-safe, one write at a time; the write must then be answered with an error and must not become durable later through another write; store failures at other writes are not generated here (inside a fail-safe context: C08)");
     run.assume("the KV store applies each store/remove atomically and in order (a crash leaves a prefix of the operation log); MemKv::materialize(prefix) is that model");
     run.assume("an operation whose success response reached the controller while no fail-safe was armed is committed; under a fail-safe, changes of the accessing fabric and network changes are committed by the acknowledged CommissioningComplete and discarded when the context ends otherwise (for writes to an existing fabric under its own fail-safe the statement is silent: old and new value are both accepted until the context ends)");
     run.assume("a prefix that ends inside an operation may show, per persisted component, the value from before or after that operation (the KvBlobStore interface has no multi-key transaction): in particular the network blob written by CommissioningComplete just before the fabric blob is accepted on its own; only changes of operations that were refused or rolled back in the full run must never be visible");
